@@ -65,6 +65,16 @@ def entryMode (table : List Fn) (held : List Mode) (i : Nat) : Mode :=
       else if sites.all (fun m => m == .w || m == .r) then .r
       else .n
 
+/-- lock mode held at the in-package call sites of function `i` (calls from `init` excluded),
+    regardless of whether it is exported: `none` if nobody calls it -/
+def callSitesMode (table : List Fn) (held : List Mode) (i : Nat) : Option Mode :=
+  let sites : List Mode := ((table.zip held).filter (·.1.name != "init")).flatMap fun (g, hg) =>
+    (g.calls.filter (·.1 == i)).map fun c => if c.2 then g.mode else hg
+  if sites.isEmpty then none
+  else if sites.all (· == .w) then some .w
+  else if sites.all (fun m => m == .w || m == .r) then some .r
+  else some .n
+
 /-- iterate from "nothing held" (a least fixed point from below: only sound claims are ever added) -/
 def heldIter (table : List Fn) : Nat → List Mode
   | 0 => table.map fun _ => .n
@@ -75,6 +85,15 @@ def held (table : List Fn) : List Mode := heldIter table 4
 /-- an access is safe iff the function's own lock covers it, or the lock held at every call site does -/
 def accessSafe (f : Fn) (heldAtEntry : Mode) (a : Access) : Bool :=
   (a.covered && f.mode.covers a.need) || (a.regionR && Mode.r.covers a.need) || heldAtEntry.covers a.need
+
+/-- index of a function by name -/
+def fnIndex (table : List Fn) (name : String) : Option Nat := table.findIdx? (·.name == name)
+
+/-- every in-package caller (other than `init`) of the named function holds the write lock -/
+def callersHoldW (table : List Fn) (name : String) : Bool :=
+  match fnIndex table name with
+  | none => false
+  | some i => callSitesMode table (held table) i == some .w
 
 /-- every (function, field, isWrite) at which a guarded field is touched without sufficient lock -/
 def unsafeSites (table : List Fn) : List (String × Field × Bool) :=
